@@ -63,7 +63,7 @@ pub fn czlist(v: &[i64]) -> String { clist(v, |z| cz(*z)) }
 pub fn qi(z: i64) -> String { format!("({}#1)", z) }
 
 /// Result of executing one spec on the implementation.
-pub enum Outcome { Case(String), Skip(&'static str) }
+pub enum Outcome { Case(String), XCase(String), Skip(&'static str) }
 
 #[derive(Default)]
 pub struct Stats { pub hist: BTreeMap<String, u64>, pub skipped: BTreeMap<String, u64>, pub samples: Vec<String>, pub panics: u64 }
